@@ -42,6 +42,8 @@ type c14View struct {
 	// extra parameter bindings (receivers of method values used as callbacks)
 	bind  map[*ssa.Parameter][]ssa.Value
 	roots []*ssa.Function // additional entry points (AddRoot)
+	// cur: during walk, the point whose instruction is being offered to the target predicate
+	cur c14Pt
 }
 
 type c14Pt struct {
@@ -283,8 +285,11 @@ func (v *c14View) walk(starts []c14Pt, target func(ssa.Instruction) bool, cu *cu
 		done := false
 		for i := pt.i; i < len(b.Instrs) && !done; i++ {
 			in := b.Instrs[i]
-			if target != nil && target(in) {
-				return true, in
+			if target != nil {
+				v.cur = pt
+				if target(in) {
+					return true, in
+				}
 			}
 			if cu != nil && cu.instrs[in] {
 				done = true
@@ -322,7 +327,7 @@ func (v *c14View) walk(starts []c14Pt, target func(ssa.Instruction) bool, cu *cu
 					s := pt.ctx.site.(*ssa.Call)
 					np := c14Pt{ctx: pt.ctx.parent, b: s.Block(), i: instrIndex(s) + 1}
 					if !pt.ctx.virtual {
-						if st := c14RetErrStatus(x); st != MaybeNil {
+						if st := v.retErrStatusAt(x, pt); st != MaybeNil {
 							np.errOf, np.errSt = s, st
 						}
 					}
@@ -408,6 +413,25 @@ func (v *c14View) constBranch(cx *c14Ctx, b *ssa.BasicBlock) int {
 		return 1
 	}
 	return -1
+}
+
+// retErrStatusAt: c14RetErrStatus, refined by the path: a Return that hands on
+// exactly the error of the inlined call that just returned inherits what is
+// known about that error.
+func (v *c14View) retErrStatusAt(ret *ssa.Return, pt c14Pt) NilStatus {
+	st := c14RetErrStatus(ret)
+	if st != MaybeNil || pt.errOf == nil || pt.errOf.Parent() != ret.Parent() {
+		return st
+	}
+	idx := ErrResultIndex(ret.Parent().Signature)
+	if idx < 0 || idx >= len(ret.Results) {
+		return st
+	}
+	rs := Roots(ret.Results[idx])
+	if e := ErrOf(pt.errOf); e != nil && len(rs) == 1 && rs[0] == e {
+		return pt.errSt
+	}
+	return st
 }
 
 // c14RetErrStatus: what is known about the error result of this Return:
